@@ -653,6 +653,14 @@ class Gen:
             return (l, "i128")
         if e[0] == "call" and e[1][0] == "path" and e[1][1] in (["I256", "from_i128"], ["I256", "from_i32"]):
             return (self.pure(e[2][1], env)[0], "I256")
+        if e[0] == "call" and e[1][0] == "path" and len(e[1][1]) == 2 and e[1][1][0] == "Self" \
+                and e[1][1][1] in getattr(self, "reads", {}) \
+                and all(self.strip(a) in (("var", "e"), ("var", "_e")) for a in e[2]):
+            # a side-effect-free getter of the contract's state: a field of the environment-reads record
+            self.uses_reads = True
+            return (f"envr.{e[1][1][1]}", self.reads[e[1][1][1]])
+        if e[0] == "path" and len(e[1]) == 2 and e[1][0] == "Rounding":
+            return (f"Rounding.{e[1][1]}", "Rounding")
         if e[0] == "call" and e[1] == ("var", "Wad"):
             return (self.pure(e[2][0], env)[0], "Wad")
         if e[0] == "call" and e[1] == ("path", ["Wad", "from_raw"]):
@@ -687,6 +695,7 @@ class Gen:
         ("i128", "checked_div"): ("i128_checked_div", "Option<i128>"),
         ("i128", "checked_rem_euclid"): ("i128_checked_rem_euclid", "Option<i128>"),
         ("i128", "checked_neg"): ("i128_checked_neg", "Option<i128>"),
+        ("i128", "checked_pow"): ("i128_checked_pow", "Option<i128>"),
         ("i128", "checked_abs"): ("i128_checked_abs", "Option<i128>"),
     }
 
@@ -804,7 +813,10 @@ class Gen:
                 if len(cands) == 1:
                     return self.call_fn(cands[0], f[1], None, e[2], env, k, ret)
             if f[0] == "path" and len(f[1]) == 2 and f[1][0] in ("Wad", "Self"):
-                return self.call_fn("Wad", f[1][1], None, e[2], env, k, ret)
+                tgt = "Wad" if f[1][0] == "Wad" else self.cur_ns
+                if (tgt, f[1][1]) not in self.sigs:
+                    raise Unsupported(f"call of untranslated function {f[1][0]}::{f[1][1]}")
+                return self.call_fn(tgt, f[1][1], None, e[2], env, k, ret)
             if f == ("var", "Some"):
                 return self.tr(e[2][0], env, lambda a, t: k(f"(some {a})", f"Option<{t}>"), ret)
             if f == ("var", "Wad"):
@@ -857,10 +869,13 @@ class Gen:
                 if (ns, name) in self.fuel_fns:
                     al = ["fuel"] + al
                     self.uses_fuel = True
+                if ns in getattr(self, "reads_ns", set()):
+                    al = ["envr"] + al
+                    self.uses_reads = True
                 v = self.fresh()
                 return f"(Comp.bind ({ns}.{name} {' '.join(al)}) fun {v} =>\n {k(v, rty)})"
             a = self.strip(real[i])
-            if a == ("var", "e") or (a[0] == "call" and a[1] == ("path", ["Env", "default"])):
+            if a in (("var", "e"), ("var", "_e")) or (a[0] == "call" and a[1] == ("path", ["Env", "default"])):
                 atoms.append(None)
                 return go(i + 1)
 
@@ -1015,11 +1030,20 @@ class Gen:
             ret = re.sub(r"\bSelf\b", self_ty, ret)
         code = self.tr_block(body, env, lambda a, t: f"Comp.ok {a}", ret)
         fuel = "(fuel : Nat) " if (ns, name) in self.fuel_fns else ""
+        if ns in getattr(self, "reads_ns", set()):
+            fuel += f"(envr : {ns}.Reads) "
         if self.uses_fuel and not fuel:
             raise Unsupported(f"{name} uses fuel but was not announced")
         return "\n".join(self.aux) + ("\n" if self.aux else "") + \
             f"def {ns}.{name} {fuel}{' '.join(lparams)} : Comp {self.lean_ty(ret)} :=\n {code}\n"
 
+
+FILES_VAULT = [
+    ("Vault", "packages/tokens/src/vault/storage.rs",
+     ["convert_to_shares_with_rounding", "convert_to_assets_with_rounding", "convert_to_shares", "convert_to_assets",
+      "preview_deposit", "preview_mint", "preview_withdraw", "preview_redeem"]),
+]
+READS_VAULT = {"Vault": {"total_supply": "i128", "total_assets": "i128", "get_decimals_offset": "u32"}}
 
 FILES_WEBAUTHN = [
     ("WebAuthn", "packages/accounts/src/verifiers/webauthn.rs",
@@ -1039,6 +1063,8 @@ def deps(e, acc):
     if isinstance(e, tuple):
         if e and e[0] in ("call",) and e[1][0] == "var":
             acc.add(e[1][1])
+        if e and e[0] == "call" and e[1][0] == "path":
+            acc.add(e[1][1][-1])
         if e and e[0] == "mcall":
             acc.add(e[2])
         for x in e:
@@ -1048,11 +1074,17 @@ def deps(e, acc):
             deps(x, acc)
 
 
-def translate(repo, FILES=FILES):
-    out = ["-- GENERATED by /verif/tools/rs2lean.py from /repo's current sources. DO NOT EDIT.",
-           "import OZ.Model.RustSem", "set_option linter.unusedVariables false", "namespace OZ.Gen", "open OZ.Rs", ""]
+def translate(repo, FILES=FILES, DEPS=(), imports=("OZ.Model.RustSem",), reads=None):
+    """DEPS: files translated elsewhere whose signatures are needed (parsed, not emitted);
+    reads: {namespace: {getter name: Rust type}} — the side-effect-free state getters (`Self::name(e)`)
+    that become fields of the record `<namespace>.Reads` passed to every function of that namespace"""
+    reads = reads or {}
+    out = ["-- GENERATED by /verif/tools/rs2lean.py from /repo's current sources. DO NOT EDIT."] + \
+          [f"import {m}" for m in imports] + \
+          ["set_option linter.unusedVariables false", "namespace OZ.Gen", "open OZ.Rs", ""]
     sigs, consts, parsed = {}, {}, []
-    for ns, rel, only in FILES:
+    emit_ns = {ns for ns, _, _ in FILES}
+    for ns, rel, only in list(DEPS) + list(FILES):
         src = open(os.path.join(repo, rel)).read()
         items = Parser(tokenize(src), set(only) if only is not None else None).items()
         fns = []
@@ -1094,10 +1126,18 @@ def translate(repo, FILES=FILES):
                     continue
                 acc = set()
                 deps(f[4], acc)
-                if any((ns2, n) in fuel_fns and n in acc for (ns2, n) in list(fuel_fns)):
+                if any(ns2 == ns and n in acc for (ns2, n) in list(fuel_fns)):
                     fuel_fns.add((ns, f[1])); changed = True
     for ns, rel, fns in parsed:
+        if ns not in emit_ns:
+            continue
         out.append(f"/-! ## {rel} -/")
+        if ns in reads:
+            g0 = Gen(sigs, consts)
+            out.append(f"/-- the state getters the translated functions read (`Self::name(e)`), as values -/\nstructure {ns}.Reads where")
+            for rn, rt in reads[ns].items():
+                out.append(f"  {rn} : {g0.lean_ty(rt)}")
+            out.append("")
         names = [f[1] for f in fns]
         # callee-before-caller order inside the file
         dep = {}
@@ -1119,6 +1159,8 @@ def translate(repo, FILES=FILES):
         g = Gen(sigs, consts)
         g.free_fns = free_fns
         g.fuel_fns = fuel_fns
+        g.reads = reads.get(ns, {})
+        g.reads_ns = set(reads)
         for f in order:
             out.append(g.function(ns, f, free))
     out.append("end OZ.Gen")
@@ -1398,7 +1440,10 @@ def main():
                 sys.stdout.write(txt)
         sys.exit(rc)
     try:
-        txt = translate(repo, FILES_WEBAUTHN if "--webauthn" in sys.argv else FILES)
+        if "--vault" in sys.argv:
+            txt = translate(repo, FILES_VAULT, DEPS=FILES, imports=("OZ.Gen.Math",), reads=READS_VAULT)
+        else:
+            txt = translate(repo, FILES_WEBAUTHN if "--webauthn" in sys.argv else FILES)
     except Unsupported as ex:
         print(f"rs2lean: unsupported: {ex}", file=sys.stderr)
         sys.exit(3)
